@@ -72,6 +72,15 @@ pub struct Ls {
     /// compact trace of the conversation (for failure messages)
     pub trace: Vec<String>,
     pub root_uri: String,
+    /// a background run is expected (its `window/workDoneProgress/create` may arrive)
+    expecting_bg: bool,
+    /// a background run started that the protocol model did not predict
+    pub unexpected_bg: bool,
+    /// this server answers didClose with a background run (see `probe_close_starts_bg`)
+    pub close_starts_bg: bool,
+    /// probe only: do not answer `create`, remember it
+    withhold_create: bool,
+    pending_create: Option<Value>,
 }
 
 impl Ls {
@@ -163,6 +172,11 @@ impl Ls {
             nonempty_publishes: 0,
             trace: vec![],
             root_uri: format!("file://{}", root.display()),
+            expecting_bg: false,
+            unexpected_bg: false,
+            close_starts_bg: false,
+            withhold_create: false,
+            pending_create: None,
         };
         ls.initialize()?;
         Ok(ls)
@@ -208,8 +222,10 @@ impl Ls {
                 )));
             }
             Err(RecvTimeoutError::Timeout) => {
+                let alive = matches!(self.child.try_wait(), Ok(None));
+                let tail: Vec<&String> = self.trace.iter().rev().take(12).rev().collect();
                 return Err(LsErr::Timeout(format!(
-                    "nothing from the server for {}s while waiting for {waiting_for}; stderr: {}",
+                    "nothing from the server for {}s while waiting for {waiting_for}; process alive: {alive}; last events: {tail:?}; stderr: {}",
                     WATCHDOG.as_secs(),
                     self.stderr_text()
                 )));
@@ -220,6 +236,16 @@ impl Ls {
         if !method.is_empty() && m.get("id").is_some() {
             // server -> client request (window/workDoneProgress/create, ...)
             let id = m.get("id").cloned().unwrap();
+            if method == "window/workDoneProgress/create" {
+                if !self.expecting_bg {
+                    self.unexpected_bg = true;
+                    self.trace.push("<- UNEXPECTED background run".into());
+                }
+                if self.withhold_create {
+                    self.pending_create = Some(id);
+                    return Ok(m);
+                }
+            }
             self.send(&json!({"jsonrpc": "2.0", "id": id, "result": null}))?;
         }
         match method.as_str() {
@@ -280,6 +306,7 @@ impl Ls {
         while self.ends_seen == have {
             self.pump(what)?;
         }
+        self.expecting_bg = false;
         Ok(())
     }
 
@@ -324,8 +351,7 @@ impl Ls {
     }
 
     pub fn did_open(&mut self, uri: &str, text: &str, version: i64) -> Result<(), LsErr> {
-        let mark = self.seq;
-        let _ = mark;
+        self.expecting_bg = true;
         self.notify(
             "textDocument/didOpen",
             json!({"textDocument": {"uri": uri, "languageId": "veryl", "version": version, "text": text}}),
@@ -354,8 +380,48 @@ impl Ls {
     }
 
     pub fn did_close(&mut self, uri: &str) -> Result<(), LsErr> {
+        if self.close_starts_bg {
+            self.expecting_bg = true;
+            if matches!(&self.latest, Some((u, _)) if u == uri) {
+                self.latest = None;
+            }
+        }
         self.notify("textDocument/didClose", json!({"textDocument": {"uri": uri}}))?;
+        if self.close_starts_bg {
+            self.wait_end("the end of the background analysis started by didClose")?;
+            let after = self.last_end_seq;
+            if let Some((u, v)) = self.latest.take() {
+                self.wait_publish(&u, v, after, "the re-publish of the latest change after background analysis")?;
+            }
+        }
         self.barrier()
+    }
+
+    /// Does this server start a background run on didClose?  (The unchanged
+    /// server ignores didClose; a server that drops the buffer has to re-read
+    /// the project.)  The client withholds its answer to
+    /// `window/workDoneProgress/create`, so a server that starts a run blocks
+    /// right there and the request is seen before or instead of a response.
+    pub fn probe_close_starts_bg(&mut self, uri: &str, text: &str) -> Result<bool, LsErr> {
+        self.did_open(uri, text, 1)?;
+        self.withhold_create = true;
+        self.notify("textDocument/didClose", json!({"textDocument": {"uri": uri}}))?;
+        let mut found = false;
+        'outer: for _ in 0..8 {
+            let id = self.request("workspace/symbol", json!({"query": "\u{1}no-such-symbol"}))?;
+            loop {
+                let m = self.pump("the didClose probe")?;
+                if self.pending_create.is_some() {
+                    found = true;
+                    break 'outer;
+                }
+                if m.get("method").is_none() && m.get("id").and_then(|x| x.as_i64()) == Some(id) {
+                    break;
+                }
+            }
+        }
+        self.unexpected_bg = false;
+        Ok(found)
     }
 
     pub fn will_rename(&mut self, old: &str, new: &str) -> Result<(), LsErr> {
@@ -366,6 +432,7 @@ impl Ls {
     }
 
     pub fn did_rename(&mut self, old: &str, new: &str) -> Result<(), LsErr> {
+        self.expecting_bg = true;
         self.notify("workspace/didRenameFiles", json!({"files": [{"oldUri": old, "newUri": new}]}))?;
         self.wait_end("the end of the background analysis started by didRenameFiles")?;
         let after = self.last_end_seq;
